@@ -13,6 +13,7 @@ import (
 	"bytes"
 	"encoding/binary"
 	"errors"
+	"flag"
 	"fmt"
 	"math"
 	"os"
@@ -20,11 +21,13 @@ import (
 	"regexp"
 	"strconv"
 	"strings"
+	"sync"
 	"unsafe"
 
 	"github.com/Ptt-official-app/go-pttbbs/cache"
 	"github.com/Ptt-official-app/go-pttbbs/ptt"
 	"github.com/Ptt-official-app/go-pttbbs/ptttype"
+	"github.com/Ptt-official-app/go-pttbbs/types"
 	"verifharness/internal/bbsenv"
 	"verifharness/internal/hx"
 )
@@ -176,32 +179,59 @@ func encode(r *ptttype.UserecRaw) []byte {
 	return b.Bytes()
 }
 
-// slotName: the user id registered for slot u in the SHM user hash (see setupNames); a name nobody has otherwise.
-func slotName(u int64) *ptttype.UserID_t {
+// names[u]: the user id registered for slot u in the SHM user hash ("" = free slot); see setupNames.
+var (
+	names      [nSlot + 1]string
+	namesFree  = "?" // the free-slot set the hash was last loaded with (csv)
+	namesDirty bool  // a registration changed the hash since then
+	modeFlag   = flag.String("mode", "seq", "seq | concurrent")
+)
+
+func idOf(name string) *ptttype.UserID_t {
 	id := &ptttype.UserID_t{}
-	if inArr(u) {
-		copy(id[:], fmt.Sprintf("vu%02d", u))
-	} else {
-		copy(id[:], "nouser")
-	}
+	copy(id[:], name)
 	return id
 }
 
-// setupNames loads the SHM user hash once from a .PASSWDS whose slot u belongs to user "vuNN": ptt.GetUser finds
-// the slot through that hash (cache.SearchUserRaw), which no operation of this harness changes afterwards.
-func setupNames() {
+// slotName: the user id of slot u; a name nobody has for invalid slots.
+func slotName(u int64) *ptttype.UserID_t {
+	if inArr(u) {
+		return idOf(names[u])
+	}
+	return idOf("nouser")
+}
+
+// setupNames loads the SHM user hash from a .PASSWDS whose slot u belongs to user "vuNN", except the slots in
+// free, which are left without a user id (they are what a registration may be given).  ptt.GetUser finds a slot
+// through that hash (cache.SearchUserRaw); only `newuser` changes it afterwards.  Account expiry is kept out:
+// fixture accounts carry PERM_XEMPT and the clean-up marker is fresh (as in cmd/c15).
+func setupNames(free []int64) {
+	isFree := map[int64]bool{}
+	for _, u := range free {
+		isFree[u] = true
+	}
 	f := make([]byte, recSize*nSlot)
-	for u := 1; u <= nSlot; u++ {
-		copy(f[recSize*(u-1)+idOff:], slotName(int64(u))[:])
+	for u := int64(1); u <= MAX; u++ {
+		names[u] = ""
+		if !isFree[u] {
+			names[u] = fmt.Sprintf("vu%02d", u)
+			base := recSize * int(u-1)
+			copy(f[base+idOff:], names[u])
+			binary.LittleEndian.PutUint32(f[base+levelOff:], uint32(ptttype.PERM_DEFAULT|ptttype.PERM_XEMPT))
+		}
 	}
 	if err := os.WriteFile(ptttype.FN_PASSWD, f, 0o600); err != nil {
 		panic(err)
 	}
+	_ = os.WriteFile(ptttype.FN_FRESH, []byte("fresh"), 0o644)
 	if err := env.ResetSHM(); err != nil {
 		fmt.Fprintln(os.Stderr, "c20: ResetSHM:", err)
 		os.Exit(2)
 	}
 	for u := int64(0); u <= MAX+1; u++ {
+		if inArr(u) && names[u] == "" {
+			continue
+		}
 		got, err := cache.SearchUserRaw(slotName(u), nil)
 		want := u
 		if !inArr(u) {
@@ -212,7 +242,30 @@ func setupNames() {
 			os.Exit(2)
 		}
 	}
+	namesFree = csv(free)
+	namesDirty = false
 }
+
+// parseFree: `free=<distinct valid slots>`
+func parseFree(tok string) ([]int64, bool) {
+	if !strings.HasPrefix(tok, "free=") {
+		return nil, false
+	}
+	l, ok := parseCsv(tok[5:])
+	if !ok || len(l) == 0 {
+		return nil, false
+	}
+	seen := map[int64]bool{}
+	for _, u := range l {
+		if !inArr(u) || seen[u] {
+			return nil, false
+		}
+		seen[u] = true
+	}
+	return l, true
+}
+
+var reIdent = regexp.MustCompile(`^[A-Za-z][A-Za-z0-9]{1,11}$`)
 
 func errClass(err error) string {
 	switch {
@@ -358,6 +411,63 @@ func (p *oracle) judge(i int, line, kind string, u, m int64, panicked bool, ret 
 			}
 		}
 		return "read"
+	}
+	if kind == "newuser" {
+		if fs := strings.Fields(line); len(fs) >= 4 {
+			line = strings.Join(fs[:4], " ") + " <record>"
+		}
+		if u == 0 { // refused before a slot was taken
+			p.frame(i, line, f, 0)
+			p.frameShm(i, line, arr, 0)
+			return "rejected"
+		}
+		if !valid {
+			run.Fail(i, "invalid-slot-accepted", fmt.Sprintf("%s: the id was registered at slot %d", line, u))
+			return "invalid"
+		}
+		if panicked {
+			run.Fail(i, "crash:valid-slot", fmt.Sprintf("%s: panic: %s", line, hx.LastPanic))
+			return "panic"
+		}
+		prev := p.bal[u]
+		shmV := int64(arr[u-1])
+		diskV, dok := diskMoney(f, u)
+		branch := "fresh-slot"
+		if prev != 0 {
+			branch = "reused-slot"
+		}
+		if errc != "ok" {
+			run.Fail(i, "valid-slot-rejected", fmt.Sprintf("%s: registration at slot %d failed (%s)", line, u, errc))
+		} else {
+			if !dok || shmV != diskV {
+				run.Fail(i, "mismatch:shm-disk", fmt.Sprintf("%s: Shm.Money=%d but .PASSWDS money=%d", line, shmV, diskV))
+			}
+			if shmV != m || (dok && diskV != m) {
+				key := "mismatch:arith"
+				if prev != m && (shmV == prev || diskV == prev) {
+					key = "register:inherited-balance"
+				}
+				run.Fail(i, key, fmt.Sprintf("%s: the new account starts with %d; slot %d held %d before; now Shm.Money=%d, .PASSWDS money=%d", line, m, u, prev, shmV, diskV))
+			}
+			base := recSize * int(u-1)
+			for k := 0; k < recSize && lastSent != nil; k++ {
+				if k >= moneyOff && k < moneyOff+4 {
+					continue
+				}
+				if f[base+k] != lastSent[k] {
+					run.Fail(i, "frame:record", fmt.Sprintf("%s: byte %d of record %d is %#02x, the registration record has %#02x", line, k, u, f[base+k], lastSent[k]))
+					break
+				}
+			}
+		}
+		p.frameRange(i, line, f, recSize*int(u-1), recSize*int(u))
+		p.frameShm(i, line, arr, u)
+		p.bal[u] = shmV
+		if errc == "ok" {
+			p.bal[u] = m
+		}
+		p.nonneg[u] = m >= 0
+		return branch
 	}
 	if kind == "permupdate" {
 		if !valid {
@@ -570,6 +680,25 @@ func doReset(ws []string) (string, string) {
 	if !(ok1 && ok2 && ok3 && ok4) || len(shm) != nSlot {
 		return "bad-op", "bad-op"
 	}
+	var free []int64
+	if len(ws) == 7 {
+		var ok bool
+		if free, ok = parseFree(ws[6]); !ok {
+			return "bad-op", "bad-op"
+		}
+	}
+	// the remaining syntax checks, before anything is touched
+	if ws[1] == "nofile" {
+		if len(disk) != 0 || tail != 0 {
+			return "bad-op", "bad-op"
+		}
+	} else if n64, ok := parseNat(ws[1], 4); !ok || len(disk) != int(n64) || int(n64) > 2*nSlot || int(tail) >= recSize {
+		return "bad-op", "bad-op"
+	}
+	if namesDirty || namesFree != csv(free) {
+		setupNames(free)
+	}
+	_ = os.WriteFile(ptttype.FN_FRESH, []byte("fresh"), 0o644)
 	var arr [nSlot]int32
 	for i, v := range shm {
 		arr[i] = int32(v)
@@ -636,9 +765,17 @@ func exec(line string) (out, label string, res *result) {
 	switch {
 	case ws[0] == "layout" && len(ws) == 1:
 		return fmt.Sprintf("max=%d sz=%d off=%d fsz=%d lvl=%d bools=%s", MAX, recSize, moneyOff, moneySz, levelOff, boolCsv()), "layout", nil
-	case ws[0] == "reset" && len(ws) == 6:
+	case ws[0] == "reset" && (len(ws) == 6 || len(ws) == 7):
 		o, l := doReset(ws)
+		if len(ws) == 7 && l != "bad-op" {
+			l += "+free"
+		}
 		return o, l, nil
+	case ws[0] == "resetconc" && len(ws) == 4:
+		o, l := doConc(ws)
+		return o, l, nil
+	case ws[0] == "newuser" && (len(ws) == 3 || len(ws) == 5):
+		return doNewUser(ws)
 	case (ws[0] == "set" || ws[0] == "de") && len(ws) == 3:
 		u, ok1 := parseI32(ws[1])
 		m, ok2 := parseI32(ws[2])
@@ -666,6 +803,9 @@ func exec(line string) (out, label string, res *result) {
 		u, ok := parseI32(ws[1])
 		if !ok || !P.have {
 			return "bad-op", "bad-op", nil
+		}
+		if inArr(u) && names[u] == "" {
+			return "no-name", ws[0] + ":no-name", nil // a slot without a user id is not reachable through ptt.GetUser
 		}
 		r := &result{kind: ws[0], u: u}
 		var rec *ptttype.UserecRaw
@@ -737,9 +877,254 @@ func exec(line string) (out, label string, res *result) {
 
 var opCount int // == the index hx.Run.Op is going to assign (every op goes through do)
 
+// newUserRec: the registration record (deterministic: no wall-clock fields).
+func newUserRec(id string, m int64) *ptttype.UserecRaw {
+	u := &ptttype.UserecRaw{}
+	copy(u.UserID[:], id)
+	copy(u.Nickname[:], "verif")
+	u.Version = ptttype.PASSWD_VERSION
+	u.FirstLogin = types.Time4(1700000000)
+	u.LastLogin = types.Time4(1700000000)
+	u.UserLevel = ptttype.PERM_DEFAULT | ptttype.PERM_XEMPT
+	u.Money = int32(m)
+	return u
+}
+
+// doNewUser: `newuser <id> <startMoney>` (generator form) or `newuser <id> <startMoney> <slot> <hex>` (recorded
+// form; slot and record are re-observed).  ptt.SetupNewUser on the real tables; the slot the id got is looked up
+// in the SHM user hash afterwards.
+func doNewUser(ws []string) (string, string, *result) {
+	m, okm := parseI32(ws[2])
+	ok := okm && reIdent.MatchString(ws[1])
+	if len(ws) == 5 {
+		sl, oks := parseI32(ws[3])
+		var hexOK bool
+		func() {
+			defer func() { _ = recover() }()
+			hexOK = ws[4] != "-" && len(hx.UnHex(ws[4])) == recSize
+		}()
+		ok = ok && oks && sl >= 0 && hexOK
+	}
+	if !ok || !P.have {
+		return "bad-op", "bad-op", nil
+	}
+	id := ws[1]
+	rec := newUserRec(id, m)
+	lastSent = encode(rec)
+	before, _ := cache.SearchUserRaw(idOf(id), nil)
+	var err error
+	o := hx.CallSync(func() string { err = ptt.SetupNewUser(rec); return "" })
+	after, _ := cache.SearchUserRaw(idOf(id), nil)
+	slot := int64(after)
+	if before != 0 || (o != "PANIC" && err != nil && after == 0) {
+		slot = 0 // refused: the id exists already, or no slot was taken
+	}
+	if o == "PANIC" && after == 0 {
+		slot = 0
+	}
+	canonLine = fmt.Sprintf("newuser %s %d %d %s", id, m, slot, hx.Hex(lastSent))
+	r := &result{kind: "newuser", u: slot, m: m}
+	if slot == 0 {
+		r.errc = "rejected"
+		if o == "PANIC" {
+			r.panicked = true
+		}
+		return "rejected", "newuser", r
+	}
+	names[slot] = id
+	namesDirty = true
+	if o == "PANIC" {
+		r.panicked = true
+		return "PANIC " + observe2(slot), "newuser:" + slotClass(slot), r
+	}
+	r.errc = errClass(err)
+	return r.errc + " " + observe2(slot), "newuser:" + slotClass(slot), r
+}
+
+// concSlots: G pairwise different slots, the first and the last among them.
+func concSlots(g int) []int64 {
+	var out []int64
+	lo, hi := int64(1), MAX
+	for len(out) < g {
+		out = append(out, lo)
+		if len(out) < g {
+			out = append(out, hi)
+		}
+		lo++
+		hi--
+	}
+	return out
+}
+
+// doConc: `resetconc G N seed`: G goroutines, each the only writer of its own slot, N SetUMoney/DeUMoney calls each,
+// all at the same time.  Afterwards every byte of .PASSWDS is compared with the expected image (the start image with
+// each slot's Money = the last value of its goroutine by plain arithmetic) and SHM likewise.  The model is not asked.
+func doConc(ws []string) (string, string) {
+	g64, ok1 := parseNat(ws[1], 2)
+	n64, ok2 := parseNat(ws[2], 6)
+	seed, ok3 := parseNat(ws[3], 19)
+	G, N := int(g64), int(n64)
+	if !(ok1 && ok2 && ok3) || G < 1 || 2*G > nSlot || N < 1 || N > 100000 {
+		return "bad-op", "bad-op"
+	}
+	if namesDirty || namesFree != "-" {
+		setupNames(nil)
+	}
+	start := fill(seed, recSize*nSlot)
+	var arr [nSlot]int32
+	for s := 0; s < nSlot; s++ {
+		arr[s] = int32(1000 * (s + 1))
+		binary.LittleEndian.PutUint32(start[recSize*s+moneyOff:], uint32(arr[s]))
+	}
+	if err := os.WriteFile(ptttype.FN_PASSWD, start, 0o600); err != nil {
+		panic(err)
+	}
+	cache.Shm.Shm.Money = arr
+	slots := concSlots(G)
+	final := make([]int64, G)
+	firstBad := make([]string, G)
+	var wg sync.WaitGroup
+	gate := make(chan struct{})
+	for k := 0; k < G; k++ {
+		wg.Add(1)
+		go func(k int) {
+			defer wg.Done()
+			r := hx.NewRand(seed*1000 + uint64(k) + 1)
+			u := slots[k]
+			bal := int64(arr[u-1])
+			<-gate
+			res := hx.CallSync(func() string {
+				for i := 0; i < N; i++ {
+					var got int32
+					var err error
+					var call string
+					if r.Intn(3) == 0 {
+						v := int64(r.Intn(1000000))
+						call = fmt.Sprintf("SetUMoney(%d, %d)", u, v)
+						got, err = cache.SetUMoney(ptttype.UID(u), int32(v))
+						bal = v
+					} else {
+						d := int64(r.Intn(4001)) - 2000
+						call = fmt.Sprintf("DeUMoney(%d, %d)", u, d)
+						got, err = cache.DeUMoney(ptttype.UID(u), int32(d))
+						if d < 0 && bal < -d {
+							bal = 0
+						} else {
+							bal += d
+						}
+					}
+					if (err != nil || int64(got) != bal) && firstBad[k] == "" {
+						firstBad[k] = fmt.Sprintf("call %d of goroutine %d: %s returned (%d, %v), plain arithmetic says %d", i, k, call, got, err, bal)
+					}
+				}
+				return ""
+			})
+			if res == "PANIC" && firstBad[k] == "" {
+				firstBad[k] = fmt.Sprintf("goroutine %d panicked: %s", k, hx.LastPanic)
+			}
+			final[k] = bal
+		}(k)
+	}
+	close(gate)
+	wg.Wait()
+	line := strings.Join(ws, " ")
+	want := append([]byte{}, start...)
+	for k, u := range slots {
+		binary.LittleEndian.PutUint32(want[recSize*int(u-1)+moneyOff:], uint32(int32(final[k])))
+	}
+	for _, b := range firstBad {
+		if b != "" {
+			pendingFails = append(pendingFails, pending{"mismatch:arith", line + ": " + b})
+			break
+		}
+	}
+	got, _ := readFile()
+	if len(got) != len(want) {
+		pendingFails = append(pendingFails, pending{"frame:concurrent", fmt.Sprintf("%s: .PASSWDS is %d bytes long, expected %d", line, len(got), len(want))})
+	} else {
+		for k := range want {
+			if got[k] != want[k] {
+				rec, off := k/recSize+1, k%recSize
+				what := "outside every Money field"
+				if off >= moneyOff && off < moneyOff+4 {
+					what = "inside the Money field"
+				}
+				pendingFails = append(pendingFails, pending{"frame:concurrent", fmt.Sprintf(
+					"%s (%d goroutines x %d calls, each on its own slot %v): byte %d of .PASSWDS (record %d, offset %d, %s) is %#02x, expected %#02x",
+					line, G, N, slots, k, rec, off, what, got[k], want[k])})
+				break
+			}
+		}
+	}
+	now := shmNow()
+	for k, u := range slots {
+		d, _ := diskMoney(got, u)
+		if int64(now[u-1]) != final[k] {
+			pendingFails = append(pendingFails, pending{"mismatch:arith", fmt.Sprintf("%s: Shm.Money[slot %d]=%d, plain arithmetic says %d", line, u, now[u-1], final[k])})
+			break
+		}
+		if int64(now[u-1]) != d {
+			pendingFails = append(pendingFails, pending{"mismatch:shm-disk", fmt.Sprintf("%s: slot %d: Shm.Money=%d but .PASSWDS money=%d", line, u, now[u-1], d)})
+			break
+		}
+	}
+	for s := 0; s < nSlot; s++ {
+		owned := false
+		for _, u := range slots {
+			if int(u-1) == s {
+				owned = true
+			}
+		}
+		if !owned && now[s] != arr[s] {
+			pendingFails = append(pendingFails, pending{"frame:shm", fmt.Sprintf("%s: Shm.Money[%d] changed from %d to %d", line, s, arr[s], now[s])})
+			break
+		}
+	}
+	P = oracle{} // the model does not follow this op: the next history starts with a reset
+	stale = map[int64]*ptttype.UserecRaw{}
+	return "done", fmt.Sprintf("conc:%dx%d", G, N)
+}
+
+func generateConcurrent() {
+	run.Rule = "concurrent stress (property oracle only; the model answers `done`): resetconc G N seed = G goroutines x N SetUMoney/DeUMoney calls, each goroutine the only writer of its own slot (1, MAX_USERS, 2, MAX_USERS-1, ...), started together; afterwards every byte of .PASSWDS and every SHM entry is compared with the image plain arithmetic gives. nontrivial = a resetconc that ran"
+	if run.Replay != "" {
+		for _, l := range hx.ReplayOps(run.Replay) {
+			do(l)
+		}
+		return
+	}
+	rounds, n := 6, 3000
+	if run.Thorough() {
+		rounds, n = 40, 6000
+	}
+	for k := 0; k < rounds; k++ {
+		g := []int{8, 16, 4, 25}[k%4]
+		do(fmt.Sprintf("resetconc %d %d %d", g, n, run.R.U64()%1000000007))
+	}
+	do("resetconc 0 10 1")
+	do("resetconc 26 10 1")
+	do("resetconc 4 0 1")
+	do("resetconc 4 10")
+}
+
+// canonLine: set by an op whose recorded line carries what was observed (newuser: the slot and the record)
+var canonLine string
+
+type pending struct{ key, what string }
+
+var pendingFails []pending
+
 func do(line string) {
+	canonLine = ""
+	pendingFails = nil
 	out, label, res := exec(line)
+	if canonLine != "" {
+		line = canonLine
+	}
 	i := opCount
+	for _, pf := range pendingFails {
+		run.Fail(i, pf.key, pf.what)
+	}
 	if res != nil {
 		br := P.judge(i, line, res.kind, res.u, res.m, res.panicked, res.ret, res.errc)
 		label += ":" + br
@@ -749,7 +1134,7 @@ func do(line string) {
 			label += ":" + res.errc
 		}
 	}
-	if got := run.Op(line, out, label, res != nil); got != i {
+	if got := run.Op(line, out, label, res != nil || strings.HasPrefix(label, "conc")); got != i {
 		panic("c20: op index out of step")
 	}
 	opCount++
@@ -765,16 +1150,21 @@ func main() {
 		os.Exit(2)
 	}
 	defer env.Close()
-	setupNames()
+	setupNames(nil)
 	run.Rule = "histories `reset; ops` on a generated .PASSWDS of MAX_USERS records (LCG filler, per-slot money) with the SHM money array set per slot. " +
 		"single-op shapes enumerated smallest first: slots {1,2,MAX-1,MAX,0,-1,MAX+1,int32 limits} x start balances {0,1,1000,2^31-2,2^31-1,-1,-1000,-2^31} x {set,de} x amounts {0,+-1,+-b,+-(b+1),2^31-1-b,2^31-b (overflow),int32 limits}, each followed by get; " +
 		"random histories of 3..40 ops with amounts chosen relative to the current balance (floor, exact, near-limit, rare overflow), unsynced and negative starts; " +
 		"whole-record writes: `permupdate u staleMoney perm` = ptt.SetUserPerm with the record kept at the last `load u` (a zero record otherwise) whose Money is set to staleMoney first, after credits/debits/sets, on all slot classes; `syncquery`/`load` = ptt.GetUser; " +
+		"registrations: `reset ... free=<slots>` leaves those slots without a user id (their SHM/disk money poked to 0, a leftover balance, or only one of the two), `newuser id startMoney` = ptt.SetupNewUser, the slot it got is observed in the SHM user hash and written into the op line together with the record; " +
 		"malformed stream: missing/short/long/torn .PASSWDS (recorded, not judged), ill-formed op lines. nontrivial = set/de/get that reached the real function; overflow and MoneyOf(invalid) cases are recorded and compared with the model, not judged"
 	if run.Replay != "" {
 		for _, l := range hx.ReplayOps(run.Replay) {
 			do(l)
 		}
+		return
+	}
+	if *modeFlag == "concurrent" {
+		generateConcurrent()
 		return
 	}
 	generate()
